@@ -37,7 +37,9 @@ CHECKS = {
             "From every initial state of the lattice the machine is stepped once; the first "
             "tick at which the steps taken reach each budget gives (duration, position, "
             "accumulator), compared exactly with calculate_lm, its legacy negative-step mirror, "
-            "moveTimeLM and the move_dist_lt round trip; minimality is inherent (first tick).",
+            "moveTimeLM and the move_dist_lt round trip; minimality is inherent (first tick). Long "
+            "moves (budgets to 2^26/2^30) use the exact bisection oracle, with start accumulators "
+            "constructed to complete the budget exactly on, just before and just after a tick.",
             "Exhaustive only over the stated lattice; 'steps taken' = sum of |position change| "
             "per tick under the C01 recurrence.",
             "DESIGN.md §3 C03"),
@@ -53,8 +55,10 @@ CHECKS = {
             "All request methods (found by introspection) are run from the healthy state under "
             "every environment vector with <= 1 (thorough 2) deviations to discover every "
             "blocked state (one per recorded message/board state); from each of them, and from "
-            "7 not-connected states, every method is run again, then disconnect/connect "
-            "variants and every method once more: zero write attempts, failure value, no "
+            "12 not-connected states, every method is run again, then disconnect (also with close() "
+            "raising) / connect variants (ok, non-EBB, open fails, silent, old firmware, "
+            "version-less, name not found) and every method once more; an unrelated decoy object "
+            "must stay untouched: zero write attempts, failure value, no "
             "exception, and a logged first-error-wins latch are checked on every transition.",
             "Trusts the fake port/board; connect() faults are left to C15; histories of depth "
             "<= 4 (5 thorough).",
@@ -64,7 +68,8 @@ CHECKS = {
             "independent reference model and a reply-attribution ledger",
             "command/query x 14 request strings and every public request method are executed "
             "for every environment vector with <= 2 (thorough 3) deviations (latency "
-            "0/1/24/25/26, bare/comma-less/wrong-name/error replies, silence, four exception "
+            "0/1/24/25/26, bare/comma-less/echoing/comma-led/wrong-name/shifted/error replies, "
+            "silence, four exception "
             "classes at write and early reads); framing, success criterion, payload stripping, "
             "no-raise, error recording, failure value, differential equality under tolerated "
             "latencies and attribution of every reply are checked on each execution.",
@@ -94,7 +99,8 @@ CHECKS = {
             "Identity-preserving subsequence, kept end points, every deleted vertex strictly "
             "closer than the tolerance to the segment of its surviving neighbours, untouched "
             "short lists / non-positive tolerances; fast predicate vs reference measurement on "
-            "all 4/5-point tuples.",
+            "all 4/5-point tuples; long oblique chords (to 1e8 units, tolerance to 1e-3) with "
+            "vertices 0.25..4 tolerances off the chord, exact oracle on the float coordinates.",
             "Exhaustive over the lattice only; exact distance ties are skipped and counted.",
             "DESIGN.md §3 C09"),
     "C10": ("exhaustive enumeration (E3) of lattice Bezier node lists with a per-split transition "
@@ -108,14 +114,16 @@ CHECKS = {
     "C11": ("exhaustive lattice enumeration (E3) of viewBox x page x preserveAspectRatio against "
             "the SVG 1.1 rule in exact rationals, compared through the mapping",
             "Full product of viewBox geometry, document sizes, none + 9 alignments, meet/slice/"
-            "absent, defer, spelling and separator variants; invalid inputs must give identity.",
+            "absent, defer, spelling and separator variants, plus pages and viewBoxes whose "
+            "aspect ratios differ by 1e-7..1e-3 or not at all; invalid inputs must give identity.",
             "Python-only numerals (nan, inf, 1_0) and unknown keywords are outside the quantifier.",
             "DESIGN.md §3 C11"),
     "C12": ("exhaustive enumeration (E3) of all strings up to length 5/6 over a numeral alphabet x "
             "unit suffixes x whitespace against an exact factor table",
             "Every numeral x unit is pushed through the parser, both converters, the round trip "
-            "and both attribute readers and cross-checked; every non-numeral or unsupported "
-            "suffix must yield None without raising.",
+            "and both attribute readers (percentages of several references, 0 included) and "
+            "cross-checked; every non-numeral, unsupported suffix and every string of 1..4/5 "
+            "letters drawn from the unit names' own letters must yield None without raising.",
             "96 px/in factor table from SVG/CSS; infinite/nan literals outside the quantifier.",
             "DESIGN.md §3 C12"),
     "C13": ("explicit-state search (E2) over removal histories of the real grid index x exhaustive "
@@ -123,13 +131,15 @@ CHECKS = {
             "All 1- and 2-path sets over the 3x3 lattice (3-path sets over a sub-lattice) x bins "
             "per side x reverse; every removal order is executed, states reached by different "
             "orders are compared field by field, and in every state nearest() is queried on a "
-            "lattice of points inside, on and outside the grid.",
+            "lattice of points inside, on and outside the grid; an unrelated index built first "
+            "must be unchanged afterwards.",
             "Zero-extent sets excluded (precondition); distance ties accepted.",
             "DESIGN.md §3 C13"),
     "C14": ("exhaustive enumeration (E3) of box multisets x query boxes against brute force",
             "All multisets of up to 4 (thorough 5) boxes over a 3-value coordinate alphabet (36 "
             "boxes, half of them degenerate) x all 36 queries, smaller multisets over 4 values, "
-            "all 4096 subsets of a deep 12-box arrangement; construction depth/time budget.",
+            "all 4096 subsets of a deep 12-box arrangement; construction depth/time budget; an "
+            "unrelated index built first must keep its answers (no state shared between indexes).",
             "Exhaustive over the alphabets only.",
             "DESIGN.md §3 C14"),
     "C15": ("exhaustive enumeration of version/threshold pairs (E3) plus deviation-bounded "
@@ -137,7 +147,7 @@ CHECKS = {
             "512x512 version pairs through both layers' min_version; connect() histories "
             "(connect+requests, connect-connect, connect-disconnect-connect) under every "
             "environment vector with <= 2 (thorough 3) deviations over open failure, 9 banner "
-            "kinds per probe, late/silent/error replies and raising I/O: True+no-error only "
+            "kinds per probe, late/silent/error replies and raising I/O incl. close(): True+no-error only "
             "after a verified >= 3.0.2 banner, rejected devices get False+error+closed port and "
             "nothing beyond the probe, in every later call too; 5 legacy gates x 12 versions.",
             "Faults after a supported board was verified are explored but unclassified.",
@@ -147,7 +157,7 @@ CHECKS = {
             "All int32 byte-pattern values x all slots (RAM inspected directly), overlapping "
             "double writes, all 20 motor states (installed directly and reached through the "
             "library, compared) x all (r1,r2) in -1..7 with query read-back and depth-2/3 "
-            "chains, and 7x7 nickname histories.",
+            "chains, and 17x17 nickname histories (incl. names made of the reply header's characters).",
             "Trusts EBB3Board's EM/QE/SL/QL/ST/QT semantics (EBB command reference).",
             "DESIGN.md §3 C16"),
     "C07": ("deviation-bounded exhaustive exploration of fake-port answers (E1) over request "
@@ -169,9 +179,11 @@ CHECKS = {
             "DESIGN.md §3 C18"),
     "C19": ("exhaustive enumeration (E3) of ordered port lists x derived lookup names through "
             "both layers with a stubbed enumerator",
-            "All ordered lists of 0..3 (thorough 4) ports over 10 descriptor kinds; first-board "
+            "All ordered lists of 0..4 (thorough 5) ports over 14 descriptor kinds (blanks in names, "
+            "description-only names, SER=/SNR= styles, foreign devices); first-board "
             "discovery, listings, reported names and every lookup derived from the list (names, "
-            "serial tags, port names in three casings) in both layers, plus a failing enumerator.",
+            "serial tags, port names in three casings) in both layers, a failing enumerator, and "
+            "all ordered pairs of short lists discovered in turn by one EBB3 object.",
             "Descriptor strings modelled on pyserial 3 output.",
             "DESIGN.md §3 C19"),
     "C20": ("exhaustive enumeration (E3) of token sequences (lxml round trip) and of every "
